@@ -45,6 +45,10 @@ def _trigger_holds(trig, ctx):
         elif key == "outtype_in":
             if ctx.get("outtype") not in want:
                 return False
+        elif key == "sw_h3":
+            c = ctx.get("cfg") or ""
+            if (len(c) == 4 and c[2] == "1") != want:
+                return False
         elif key == "objective":
             if ctx.get("o") != want:
                 return False
